@@ -320,3 +320,15 @@ patch("s-c18c-frees-callers-pools", "seeded/C18-C/patch.diff", "C18.R8")
 patch("s-c18d-default-sched-leak", "seeded/C18-D/patch.diff", "C18.R2")
 patch("s-c20c-type-under-val", "seeded/C20-C/patch.diff", "C20.R6")
 patch("s-c20d-wrong-type-limit", "seeded/C20-D/patch.diff", "C20.R7")
+patch("s-c01e-randws-victim-range", "seeded/C01-E/patch.diff", "C01.R14")
+patch("s-c01f-batch-push-index", "seeded/C01-F/patch.diff", "C01.R15")
+patch("s-c07f-batch-push-count", "seeded/C07-F/patch.diff", "C07.R7")
+patch("s-c04e-owner-is-stream", "seeded/C04-E/patch.diff", "C04.R11")
+patch("s-c10e-reader-count-narrow", "seeded/C10-E/patch.diff", "C10.X5")
+patch("s-c11e-self-target-ub-assert", "seeded/C11-E/patch.diff", "C11.R8")
+patch("s-c08f-barrier-free-no-lock", "seeded/C08-F/patch.diff", "C08.X4")
+patch("s-c19f-fini-before-check", "seeded/C19-F/patch.diff", "C19.X4")
+patch("s-c16f-table-size-zero", "seeded/C16-F/patch.diff", "C16.R6")
+patch("s-c17e-stale-next-link", "seeded/C17-E/patch.diff", "C17.R8")
+patch("s-c19e-deadline-before-pop", "seeded/C19-E/patch.diff", "C19.R4")
+patch("s-c18f-lock-held-on-error", "seeded/C18-F/patch.diff", "C18.X4")
